@@ -279,11 +279,27 @@ Verdict consume_input(const std::string &entry, const Bytes &in, size_t bits, si
         uint64_t *out = (uint64_t *)malloc(capacity * 8);
         ret = entry == "elias.gamma" ? varintEliasGammaDecodeArray(src, bits, out, capacity)
                                      : varintEliasDeltaDecodeArray(src, bits, out, capacity);
-        free(out);
         if (ret > capacity) {
             v.cls = "count-exceeds-capacity";
             v.detail = "returned " + std::to_string(ret) + " with capacity " + std::to_string(capacity);
+        } else if (bits % 8 != 0 && bits / 8 < len) {
+            // bit-granular bound: the bits of the last byte beyond srcBits are not input;
+            // decoding again with those bits inverted must give the same count and values
+            uint8_t *src2 = (uint8_t *)malloc(len);
+            memcpy(src2, src, len);
+            src2[bits / 8] ^= (uint8_t)(0xffu >> (bits % 8)); // MSB-first: low bits are beyond srcBits
+            uint64_t *out2 = (uint64_t *)malloc(capacity * 8);
+            size_t ret2 = entry == "elias.gamma" ? varintEliasGammaDecodeArray(src2, bits, out2, capacity)
+                                                 : varintEliasDeltaDecodeArray(src2, bits, out2, capacity);
+            if (ret2 != ret || (ret <= capacity && memcmp(out, out2, ret * 8) != 0)) {
+                v.cls = "over-read-bits";
+                v.detail = "the result depends on bits of the last byte beyond the declared " + std::to_string(bits) +
+                           " bits (" + std::to_string(ret) + " vs " + std::to_string(ret2) + " values)";
+            }
+            free(out2);
+            free(src2);
         }
+        free(out);
     } else if (entry == "bitmap.decode") {
         varintBitmap *vb = varintBitmapDecode(src, len);
         if (vb) varintBitmapFree(vb); // leak hygiene only; later use is outside the statement
@@ -343,6 +359,7 @@ class PipeInput : public Engine {
             return p;
         }
         size_t n = gen_length(r, tier, 120);
+        if (r.chance(1, 60)) n = r.pick(std::vector<size_t>{700, 1000, 4097, 5000}); // beyond the usual sizes
         int cls = (int)r.below(ARR_NCLASSES);
         if (entry.rfind("dict", 0) == 0 && r.chance(2, 3)) cls = r.chance(1, 2) ? ARR_LOWCARD : ARR_CONSTANT;
         if (entry.rfind("dict", 0) == 0 && r.chance(1, 6)) {
@@ -653,6 +670,7 @@ class PipeCapacity : public Engine {
         std::string d = r.pick(decs);
         op.sets("decoder", d);
         size_t n = gen_length(r, tier);
+        if (r.chance(1, 50)) n = r.pick(std::vector<size_t>{385, 700, 1000, 4097, 5000}); // beyond the usual sizes
         int cls = (int)r.below(ARR_NCLASSES);
         if (d == "group.decode") n = r.range(1, 64);
         if (d.rfind("elias", 0) == 0) cls = r.chance(1, 2) ? ARR_SMALL : (r.chance(1, 2) ? ARR_ZERORUNS : ARR_FULL64);
